@@ -56,7 +56,7 @@ type step struct {
 	absC    *big.Int // |centred scalar|
 	outMode string   // new fresh op0 op1 recycled acc zero
 	out     *rlwe.Ciphertext
-	outc    *cval // pool entry that is overwritten (nil for new/fresh)
+	outc    *cval  // pool entry that is overwritten (nil for new/fresh)
 	tag     string // extra signature predicate of a dedicated family (e.g. rdeg=0)
 	asEl    bool   // op1 is handed over as *rlwe.Element (ct.El() / pt.El()) instead of the wrapper
 	dirty   bool   // the fresh receiver carries stale metadata that the operation documents to re-initialise
